@@ -4,6 +4,7 @@ mod driver_r;
 mod buildstep;
 mod engine_b;
 mod engine_d;
+mod diag_n;
 mod engine_n;
 mod engine_r;
 mod gram;
